@@ -92,6 +92,7 @@ def search(run, info):
         texts.append(("statement-nesting", gen_prog.render(lx), set()))
     # character strings: every two-character escape and '$' next to the closing quote, as initial value and in an expression
     bodies = ["", "a", "$$", "a$$", "$$a", "$$$$", "USD $$", "$N$L", "a$Nb", "$R$T$P", "x$$$$y$$", "$41", "it is", "$$ $$", "q$$q$$"]
+    texts.append(("string-escapes", "FUNCTION_BLOCK fq\nVAR\ns : STRING;\nw : WSTRING;\nEND_VAR\nw := \"it's\";\ns := 'say \"hi\"';\nw := CONCAT(\"'\", \"a'b'c\");\nEND_FUNCTION_BLOCK\n", set()))
     for b in bodies:
         for q in ("'", '"'):
             ty = "STRING" if q == "'" else "WSTRING"
